@@ -18,7 +18,7 @@ META = {
         'maps labels to root numbers; C05.FULL-SCAN - the per-chunk grouping compares every target with all targets and links when '
         'sep <= distance; C05.CELLS - cell formulas / RA rotation / wrap handling shared with C04. NOT decided: that the per-chunk '
         'grouping plus the union-find produce exactly the connected components for all geometries.'),
-    'floors': {'C05.MARGIN': 2, 'C05.LIST-DESC': 4, 'C05.RESET': 2, 'C05.RENUMBER': 1, 'C05.ROOT': 3, 'C05.FULL-SCAN': 2, 'C05.CELLS': 9},
+    'floors': {'C05.MARGIN': 2, 'C05.LIST-DESC': 4, 'C05.RESET': 2, 'C05.RENUMBER': 1, 'C05.ROOT': 3, 'C05.FULL-SCAN': 3, 'C05.CELLS': 9},
 }
 
 
